@@ -94,8 +94,9 @@ Inductive local :=
 | LFPH (k : Z) (c : fk) (b : buf) (i : nat) (prev curr next : nat) (* before helpDelete CAS *)
 (* Insert4 *)
 | LInsPub (k : Z) (x xl : nat) (b : buf)                     (* before the level-0 publish CAS *)
-| LInsOwn (k : Z) (x xl : nat) (b : buf) (i : nat)           (* before x.getNext(i) *)
-| LInsOwnCas (k : Z) (x xl : nat) (b : buf) (i : nat) (nn : nat) (* before x.dcasNext(i, nodeNext -> succs[i]) *)
+| LInsOwn (k : Z) (x xl : nat) (b : buf) (i : nat)           (* before x.getNext(i) and, if needed, the
+                                                                 CAS of the node's own pointer (one segment:
+                                                                 no yield point fits inside the Go condition) *)
 | LInsLink (k : Z) (x xl : nat) (b : buf) (i : nat)          (* before preds[i].dcasNext(i, succs[i] -> x) *)
 (* softDelete *)
 | LSdLoad (k : Z) (n : nat) (i : nat) (marked : bool)        (* before n.getNext(i) *)
@@ -170,7 +171,10 @@ Definition begin (tid : nat) (o : op) (p : pers) (sh : shared) : R :=
   | OLookup k => (sh, p, inl (LFP0 k KLookup buf0))
   | OSeekFirst => (sh, p, inl LItFirst)
   | OSeek k => (sh, p, inl (LFP0 k KSeek buf0))
-  | ONext => (sh, p, inl (LItNext (p_it p)))
+  | ONext =>
+    (* callers test Valid() first; Next on an exhausted iterator is not issued *)
+    if it_valid (p_it p) && negb (Nat.eqb (it_curr (p_it p)) tl_id) then (sh, p, inl (LItNext (p_it p)))
+    else (sh, p, inr (RIter false 0))
   end.
 
 Definition set_buf (b : buf) (i : nat) (pr su : nat) : buf :=
@@ -222,10 +226,9 @@ Definition step (tid : nat) (l : local) (p : pers) (sh : shared) : R :=
     let '(nn, deleted) := getnext sh x i in
     if deleted then insert_finish sh p k x xl
     else if Nat.eqb nn (succ_at b i) then (sh, p, inl (LInsLink k x xl b i))
-    else (sh, p, inl (LInsOwnCas k x xl b i nn))
-  | LInsOwnCas k x xl b i nn =>
-    let '(sh1, ok) := dcas sh x i nn (succ_at b i) false in
-    if ok then (sh1, p, inl (LInsLink k x xl b i)) else insert_finish sh1 p k x xl
+    else
+      let '(sh1, ok) := dcas sh x i nn (succ_at b i) false in
+      if ok then (sh1, p, inl (LInsLink k x xl b i)) else insert_finish sh1 p k x xl
   | LInsLink k x xl b i =>
     let '(sh1, ok) := dcas sh (pred_at b i) i (succ_at b i) x false in
     if ok then
